@@ -50,6 +50,7 @@ func runC12(seed uint64, n int, tier string, outDir string) []*Stats {
 	hexCases(r, n, cf, st)
 	numberCases(r, n, cf, st)
 	redundantCases(r, n, cf, st)
+	pctRefCases(r, cf, st)
 	boxModelCases(r, n+n/2, cf, st)
 	radiusModelCases(r, n, cf, st)
 	mangleCases(r, n/2, cf, st)
